@@ -37,6 +37,7 @@ class Enum:
         return 1 if n <= 256 else 2 if n <= 65536 else 4
 
 def has_seq(t, D):
+    t = t.lstrip("!")
     if t in LEAF: return LEAF[t]
     base = t.split("<")[0]
     if base in D: return D[base].has_seq(D)
@@ -48,6 +49,7 @@ def has_seq(t, D):
 
 def is_var(t, D):
     """value-dependent encoded size (symbolic variant / presence => symbolic offsets for what follows)"""
+    t = t.lstrip("!")
     if t.startswith("Option<") or t.startswith("Result<"): return True
     base = t.split("<")[0]
     if base in D:
@@ -80,6 +82,10 @@ def catalogue():
     q("SqUsize", ["usize", "u64"], repr_="C", note="usize is never packed")
     q("SqArr", ["[u16; 2]", "u32"], repr_="C", note="array field, packed")
     q("SqF32", ["f32", "u32"], repr_="C", note="float field")
+    q("SqIgnoreMid", ["u8", "!u32", "u16", "u64"], kind="tuple", note="tuple struct with a #[savefile_ignore] field before serialized fields")
+    q("SqIgnoreNamed", ["u16", "!u8", "u16"], repr_="C", note="named struct with an ignored field in the middle")
+    t("StIgnoreFirst", ["!u64", "u8", "u32"], note="ignored first field")
+    t("StIgnoreLast", ["u32", "u32", "!u32"], repr_="C", note="ignored last field (would be packed without it)")
     q("SqOne", ["u64"], note="single field repr(Rust): offset 0 and full size => packed")
     q("SqOverAligned1", ["u32"], repr_="C, align(8)", note="over-aligned single field: trailing padding, must not be packed")
     q("SqOverAligned2", ["u16", "u16"], repr_="C, align(8)", note="over-aligned two fields: trailing padding")
@@ -116,6 +122,9 @@ def catalogue():
     E.append(Enum("EqMany257", [U("A"), U("B")], many=255, tier="x", note="257 variants without repr: 2-byte discriminant"))
     E.append(Enum("EqMany256", [U("A"), U("B")], many=254, tier="x", note="exactly 256 variants without repr: still a 1-byte discriminant"))
     eq("EqExplicit", [U("A", 5), U("B", 7)], repr_="u8", note="explicit discriminants: wire = variant index, image = discriminant value")
+    eq("EqLaterPad", [T("A", "u8", "u16", "u16", "u16"), T("B", "u16", "u16", "u16")], repr_="u8", note="padding after the discriminant only in a later variant")
+    et("EtLaterPad32", [T("A", "u32", "u32"), T("B", "u32", "u16")], repr_="u32", note="tail padding only in a later variant")
+    et("EtMidPad", [T("A", "u8", "u8", "u16"), T("B", "u8", "u16")], repr_="u8", note="padding between fields of a later variant")
     et("EtU8Data2", [T("A", "u8", "u8"), T("B", "u16")], repr_="u8", note="")
     et("EtU16Data", [T("A", "u16"), S("B", "u8", "u8")], repr_="u16", note="")
     et("EtI8", [U("A"), U("B"), U("C")], repr_="i8", note="")
@@ -143,16 +152,20 @@ def emit_struct(s, out, allD):
     attrs = "#[derive(Savefile, Debug)]\n"
     if s.repr: attrs += "#[repr(%s)]\n" % s.repr
     gen = "<T>" if s.generic else ""
+    ign = [f.startswith("!") for f in s.fields]
+    raw = [f.lstrip("!") for f in s.fields]
+    ia = lambda i: "#[savefile_ignore] " if ign[i] else ""
     if s.kind == "unit":
         out.append(attrs + "pub struct %s;" % s.name)
     elif s.kind == "tuple":
-        out.append(attrs + "pub struct %s%s(%s);" % (s.name, gen, ", ".join("pub " + f for f in s.fields)))
+        out.append(attrs + "pub struct %s%s(%s);" % (s.name, gen, ", ".join(ia(i) + "pub " + f for i, f in enumerate(raw))))
     else:
-        out.append(attrs + "pub struct %s%s { %s }" % (s.name, gen, ", ".join("pub f%d: %s" % (i, f) for i, f in enumerate(s.fields))))
+        out.append(attrs + "pub struct %s%s { %s }" % (s.name, gen, ", ".join("%spub f%d: %s" % (ia(i), i, f) for i, f in enumerate(raw))))
     acc = (lambda i: "self.%d" % i) if s.kind == "tuple" else (lambda i: "self.f%d" % i)
     oacc = (lambda i: "o.%d" % i) if s.kind == "tuple" else (lambda i: "o.f%d" % i)
     inst = "%s<%s>" % (s.name, s.generic) if s.generic else s.name
-    ft = [(s.generic if f == "T" else f) for f in s.fields]
+    ft = [(s.generic if f == "T" else f) for f in raw]
+    live = [i for i in range(len(ft)) if not ign[i]]
     if s.kind == "unit":
         ctor = s.name
     elif s.kind == "tuple":
@@ -160,13 +173,13 @@ def emit_struct(s, out, allD):
     else:
         ctor = "%s { %s }" % (s.name, ", ".join("f%d: <%s as VT>::any()" % (i, f) for i, f in enumerate(ft)))
     fixed = "match (%s) { (%s) => Some(0 %s), _ => None }" % (
-        "".join("<%s as VT>::FIXED, " % f for f in ft), "".join("Some(a%d), " % i for i in range(len(ft))),
-        "".join("+ a%d " % i for i in range(len(ft)))) if ft else "Some(0)"
+        "".join("<%s as VT>::FIXED, " % ft[i] for i in live), "".join("Some(a%d), " % i for i in live),
+        "".join("+ a%d " % i for i in live)) if live else "Some(0)"
     out.append("impl VT for %s {\n    const FIXED: Option<usize> = %s;\n    fn any() -> Self { %s }\n    fn enc(&self, out: &mut RefBuf) { %s }\n    fn same(&self, o: &Self) -> bool { %s }\n    fn valid(&self) -> bool { %s }\n    fn wire_len(&self) -> u128 { %s }\n}" % (
-        inst, fixed, ctor, " ".join("%s.enc(out);" % acc(i) for i in range(len(ft))) or "let _ = out;",
-        " && ".join("%s.same(&%s)" % (acc(i), oacc(i)) for i in range(len(ft))) or "let _ = o; true",
-        " && ".join("%s.valid()" % acc(i) for i in range(len(ft))) or "true",
-        " + ".join("%s.wire_len()" % acc(i) for i in range(len(ft))) or "0"))
+        inst, fixed, ctor, " ".join("%s.enc(out);" % acc(i) for i in live) or "let _ = out;",
+        " && ".join("%s.same(&%s)" % (acc(i), oacc(i)) for i in live) or "let _ = o; true",
+        " && ".join("%s.valid()" % acc(i) for i in live) or "true",
+        " + ".join("%s.wire_len()" % acc(i) for i in live) or "0"))
     return inst
 
 def emit_enum(e, out):
@@ -288,6 +301,7 @@ macro_rules! instantiate_derived {
     facts = {"q": [], "t": []}
     def uses_rec(t):
         """schema goes through WithSchemaContext::possible_recursion (HashMap<TypeId>): out of reach (R17)"""
+        t = t.lstrip("!")
         if t.startswith("[") or t.startswith("Vec<") or t.startswith("Box<"): return True
         base = t.split("<")[0]
         if base in allD:
@@ -302,10 +316,13 @@ macro_rules! instantiate_derived {
                 "        let (sz, al) = struct_layout(st);",
                 '        assert!(sz.is_none() || sz == Some(std::mem::size_of::<%s>()), "C11: schema records a size that is not size_of::<T>()");' % inst,
                 '        assert!(al.is_none() || al == Some(std::mem::align_of::<%s>()), "C11: schema records an alignment that is not align_of::<T>()");' % inst,
-                '        assert!(st.fields.len() == %d, "C11: schema field count differs from the definition");' % len(s_.fields)]
+                '        assert!(st.fields.len() == %d, "C11: schema field count differs from the definition");' % len([f for f in s_.fields if not f.startswith("!")])]
+        si = 0
         for i, f in enumerate(s_.fields):
+            if f.startswith("!"): continue
             acc = ("%d" % i) if s_.kind == "tuple" else ("f%d" % i)
-            body.append('        { let o = field_offset(&st.fields[%d]); assert!(o.is_none() || o == Some(std::mem::offset_of!(%s, %s)), "C11: schema records a field offset that is not offset_of!(T, field)"); }' % (i, inst, acc))
+            body.append('        { let o = field_offset(&st.fields[%d]); assert!(o.is_none() || o == Some(std::mem::offset_of!(%s, %s)), "C11: schema records a field offset that is not offset_of!(T, field)"); }' % (si, inst, acc))
+            si += 1
         body += ["    }", '    _ => panic!("C11: schema of a derived struct is not Schema::Struct"),', "}", "std::mem::forget(s);", 'kani::cover!(true, "reached end");']
         facts[s_.tier].append("kproof!(f_%s, 6, {\n        %s\n    });" % (s_.name, "\n        ".join(body)))
     for e in E:
